@@ -94,7 +94,13 @@ def check(ctx):
             consts = [st[2][1][1].get("int") for b in body.reachable for st in body.stmts(b) if st[0] == "A" and not st[1]["p"] and st[1]["l"] == 0 and st[2][0] == "Use" and st[2][1][0] == "k"]
             ctx.ob("R08.1", f"{k}|answer-after-publication", bool(pubs) and all(all(body.dominates(p, b) for p in pb) for b in body.reachable for st in body.stmts(b) if st[0] == "A" and not st[1]["p"] and st[1]["l"] == 0),
                    site, f"constant answer(s) {consts} are produced only after the publication call")
-            ctx.ob("R08.7", f"{k}|true-when-published", bool(consts) and all(c_ == 1 for c_ in consts), site, f"answers {consts} after the (infallible) publication; required: true")
+            # `match publication { Some(len) => { ..; true }, None => false }`: true on the success edge, false on the failure edge; no outcome test = infallible: true
+            sws = [p_ for p_ in C01.pub_switches(body, dg) if p_["role"] != "is_full"]
+            if sws:
+                ok7 = all(util.returned_values(body, dg, p_["success"]) == {("const", 1)} and util.returned_values(body, dg, p_["failure"]) <= {("const", 0)} for p_ in sws)
+                ctx.ob("R08.7", f"{k}|true-when-published", ok7, site, "true on the publication's success edge, false on its failure edge")
+            else:
+                ctx.ob("R08.7", f"{k}|true-when-published", bool(consts) and all(c_ == 1 for c_ in consts), site, f"answers {consts} after the (infallible) publication; required: true")
         # ---------------------------------------------------------------- try_cancel_slot_reserve
         k = f"{path} as {R.T_PROD}::try_cancel_slot_reserve"
         body = Body(fx.fn(k)); dg = D.Dag(body)
